@@ -72,8 +72,21 @@ type scenRecord struct {
 	// not stop).  In a batch process this only voids the rest of the batch (the send lock is process-wide:
 	// the culprit may be another scenario); it counts when the scenario shows it alone in a fresh process.
 	Stuck string `json:"stuck,omitempty"`
+	// server-list scenarios: the Connect() calls seen in the client's log against the model's connectList
+	ListLine string       `json:"list_line,omitempty"`
+	ListOut  string       `json:"list_out,omitempty"`
+	ListCorr string       `json:"list_corr,omitempty"`
+	List     *listVerdict `json:"list,omitempty"`
+	Groups   []connGroup  `json:"connect_calls,omitempty"`
 
-	pending *pendingReplay // child only: to be replayed on the model at the end of the batch
+	pending  *pendingReplay // child only: to be replayed on the model at the end of the batch
+	pendingL *pendingList
+}
+
+type pendingList struct {
+	kinds  []string
+	groups []connGroup
+	line   string
 }
 
 // The driver is started once per batch, after the last scenario: starting a process forks, and
@@ -184,7 +197,17 @@ func evaluate(j job, driver string) scenRecord {
 	}
 	if o.Spec.ApplyConfigs > 0 {
 		cnt("apply-config-while-sending")
+		cnt("client-built-with:WithWhatapTcpServer")
+	} else {
+		cnt("client-built-with:WithServers")
 	}
+	if o.StoppedBy != "" {
+		cnt("process-stopped-by:" + o.StoppedBy)
+	} else {
+		cnt("process-stopped-by:StopForVerif")
+	}
+	rec.Counts["public-Flush-after-SendAndClear:nothing-left"] += int(o.FlushEmpty)
+	rec.Counts["public-Flush-after-SendAndClear:something-left"] += int(o.FlushOther)
 	rec.Counts["sends"] += len(o.Sends)
 	rec.Counts["frames-received"] += len(an.Delivered)
 	rec.Counts["connections"] += len(o.Conns)
@@ -229,6 +252,25 @@ func evaluate(j job, driver string) scenRecord {
 		}
 	}
 	rec.Findings = r.f
+	if len(o.Spec.Servers) > 0 {
+		cnt("server-list")
+		cnt(fmt.Sprintf("server-list:entries:%d", len(o.Spec.Servers)))
+		for i, k := range o.Spec.Servers {
+			if k == "live" {
+				break
+			}
+			cnt("server-list:before-live:" + k)
+			_ = i
+		}
+		groups := connectGroups(o.Log, o.Addrs)
+		rec.Counts["server-list:connect-calls"] += len(groups)
+		if len(groups) <= 40 {
+			rec.Groups = groups
+		}
+		if driver != "" {
+			rec.pendingL = &pendingList{o.Spec.Servers, groups, listLine(o.Spec.Servers, o.Spec.TimeoutMs)}
+		}
+	}
 	if driver != "" {
 		w := buildWitness(o, an)
 		if w.skip != "" {
@@ -353,7 +395,7 @@ func childMain(env *vh.Env) {
 	gate := newMemGate(budget)
 	var wg sync.WaitGroup
 	var pmu sync.Mutex
-	var pend []*scenRecord
+	var pend, pendL []*scenRecord
 	for _, j := range jobs {
 		wg.Add(1)
 		sem <- struct{}{}
@@ -371,6 +413,12 @@ func childMain(env *vh.Env) {
 				pmu.Lock()
 				rr := r
 				pend = append(pend, &rr)
+				pmu.Unlock()
+			}
+			if r.pendingL != nil {
+				pmu.Lock()
+				rr := r
+				pendL = append(pendL, &rr)
 				pmu.Unlock()
 			}
 			if p := os.Getenv("C06_DEBUG"); strings.HasPrefix(p, "/") {
@@ -392,6 +440,24 @@ func childMain(env *vh.Env) {
 	// model replay of everything that finished, in one driver run
 	pmu.Lock()
 	defer pmu.Unlock()
+	if len(pendL) > 0 && env.Driver != "" {
+		// server lists: what the model's Connect() does with each list, against the Connect() calls observed
+		lines := make([]string, len(pendL))
+		for i, r := range pendL {
+			lines[i] = r.pendingL.line
+		}
+		outs, err := vh.RunDriver(env.Driver, lines)
+		for i, r := range pendL {
+			c := scenRecord{Event: "corrL", Idx: r.Idx, Spec: r.Spec, ListLine: lines[i]}
+			if err != nil {
+				c.ListCorr = "driver: " + err.Error()
+			} else {
+				v := compareListDriver(r.pendingL.kinds, r.pendingL.groups, outs[i])
+				c.ListOut, c.ListCorr, c.List = outs[i], v.Corr, &v
+			}
+			emit(c)
+		}
+	}
 	if len(pend) > 0 && env.Driver != "" {
 		lines := make([]string, len(pend))
 		for i, r := range pend {
@@ -592,6 +658,10 @@ func runChildMem(env *vh.Env, jobs []job, par int, mem int64, timeout time.Durat
 			} else if r.Event == "done" {
 				rr := r
 				cr.done[r.Idx] = &rr
+			} else if r.Event == "corrL" {
+				if d, ok := cr.done[r.Idx]; ok {
+					d.ListLine, d.ListOut, d.ListCorr, d.List = r.ListLine, r.ListOut, r.ListCorr, r.List
+				}
 			} else if r.Event == "corr" {
 				if d, ok := cr.done[r.Idx]; ok {
 					d.Corr, d.Line, d.DriverOut, d.Admitted, d.Log = r.Corr, r.Line, r.DriverOut, r.Admitted, r.Log
